@@ -13,7 +13,9 @@ EXPLANATION = (
     "direct state assignment) is followed on that path by a test of the state and, on its "
     "true edge, by epoll ctl(Modify) for the same descriptor with the matching interest (OUT / IN); "
     "event sets given to Add/Modify contain exactly one of IN and OUT; read() moves to AwaitingOutgoing "
-    "exactly under pending_write(), write() to AwaitingIncoming exactly under !pending_write(). "
+    "exactly under pending_write(), write() to AwaitingIncoming exactly under !pending_write(), and either becomes Closed "
+    "only on a path on which the transfer reported an error; a complete well-formed request is refused by the parsers only for "
+    "the enumerated reasons (closed table, = C02 R02.10). "
     "Decides these clauses; finite-poll delivery and quiescence of the epoll fd are not decided."
 )
 TRUSTED = ["level-triggered epoll reports only registered interest", "vmm-sys-util EventSet constants"]
